@@ -215,6 +215,13 @@ def normalize_formula(a, min_val, max_val, result):
 
 
 @hint(REPEAT, scoped=True)
+def repeat_hint_div(x, y, repeats, result):
+    """pure arithmetic: an index below repeats*n lies in copy i div n < repeats"""
+    return forall(range(repeats * len(x)), lambda i: 0 <= i // len(x) and i // len(x) < repeats
+                  and 0 <= i % len(x) and i % len(x) < len(x) and (i // len(x)) * len(x) + i % len(x) == i)
+
+
+@hint(REPEAT, scoped=True, uses=['repeat_hint_div'])
 def repeat_hint_closed(x, y, repeats, result):
     """instances of the forward form at c = i div n, j = i mod n"""
     return forall(range(repeats * len(x)), lambda i:
@@ -223,7 +230,7 @@ def repeat_hint_closed(x, y, repeats, result):
 
 @ensures(REPEAT, uses=['repeat_hint_closed'])
 def repeat_closed_form(x, y, repeats, result):
-    return is_ndarray(result[0]) and is_ndarray(result[1]) and len(result[0]) == repeats * len(x) and len(result[1]) == repeats * len(y) and forall(range(repeats * len(x)), lambda i: result[0][i] == x[i % len(x)] + (i // len(x)) * period(x))
+    return is_ndarray(result[0]) and is_ndarray(result[1]) and len(result[0]) == repeats * len(x) and len(result[1]) == repeats * len(y) and forall(range(repeats * len(x)), lambda i: eq(result[0][i], x[i % len(x)] + (i // len(x)) * period(x)))
 
 
 @ensures(REPEAT, assumed="mathematical consequence of repeat_post_x (copy c is the input shifted by c periods, period > span): "
@@ -235,7 +242,7 @@ def repeat_increasing(x, y, repeats, result):
 
 
 
-@hint(REPEAT, scoped=True)
+@hint(REPEAT, scoped=True, uses=['repeat_hint_div'])
 def repeat_hint_closed_y(x, y, repeats, result):
     return forall(range(repeats * len(y)), lambda i: result[1][(i // len(y)) * len(y) + i % len(y)] == y[i % len(y)])
 
